@@ -213,6 +213,39 @@ pub fn run(ctx: &Ctx, rep: &mut Report) {
             let name: Vec<u8> = rng.pick(&[b"Token A".to_vec(), "Жетон 🪙".as_bytes().to_vec(), b"t".to_vec()]).clone();
             let symbol: Vec<u8> = rng.pick(&[b"TKA".to_vec(), b"T".to_vec()]).clone();
             let decimals: u32 = *rng.pick(&[0u32, 7, 18, 255]);
+            // now and then: a local deployment with metadata the token cannot represent; the
+            // statement does not say whether the service or the token refuses, but nothing may remain
+            if op == "deploy-fresh" && rng.chance(1, 6) {
+                let (bn, bs, bd): (Vec<u8>, Vec<u8>, u32) = match rng.below(3) {
+                    0 => (vec![], b"S".to_vec(), 7),
+                    1 => (b"N".to_vec(), vec![], 7),
+                    _ => (b"N".to_vec(), b"S".to_vec(), 256),
+                };
+                let bsalt = rng.bytes32();
+                let o = w.do_deploy(&deployer, &bsalt, &bn, &bs, bd, 10, None, Auth::Only(vec![deployer.clone()]));
+                rep.count("op:deploy-unrepresentable-metadata");
+                rep.eval("deploy-unrepresentable-metadata", &format!("badmeta|{}|{}", bd, o.ok()), true);
+                if let Some(l) = &o.leak {
+                    rep.violation("failed-deployment-left-trace:unrepresentable-metadata", l.clone());
+                    alive = false;
+                    continue;
+                }
+                if o.ok() {
+                    // accepted: then the token must report exactly what was requested
+                    let id = o.res.clone().unwrap();
+                    if let Some((addr, _)) = w.registry_entry(&id) {
+                        match read_token(&mut w.u, &addr) {
+                            Ok(f) if f.name == bn && f.symbol == bs && f.decimals == bd => {}
+                            _ => {
+                                rep.violation("deployed-token-config:metadata", "token deployed with unrepresentable metadata reports something else".into());
+                                alive = false;
+                                continue;
+                            }
+                        }
+                        w.model.tokens.insert(id, TokenRec { id, addr, mode: TokMode::Native, name: bn, symbol: bs, decimals: bd, its_can_mint: true, minter: None });
+                    }
+                }
+            }
             match op {
                 "deploy-fresh" | "deploy-same-deployer-salt-same-metadata" | "deploy-same-deployer-salt-other-metadata" | "deploy-same-salt-other-deployer" | "deploy-local-taken-remotely" => {
                     let (dep, salt, taken, cfg): (Address, [u8; 32], bool, String) = match op {
@@ -521,6 +554,7 @@ pub fn run(ctx: &Ctx, rep: &mut Report) {
         }
     }
     req.push("inbound-probe-ok".into());
+    req.push("op:deploy-unrepresentable-metadata".into());
     rep.notes.insert("required".into(), json!(req));
     rep.notes.insert("n_recipe_agrees_with_documented_derivation".into(), json!(recipe_agree));
     rep.notes.insert("n_recipe_differs_from_documented_derivation".into(), json!(recipe_differ));
